@@ -461,8 +461,8 @@ def dist_key(case):
 
 def run(ctx, out, replay=None):
     quick = ctx.quick()
-    out.rule = ("all 0/1 matrices of every shape up to 4x4 (quick) / every shape with at most 20 cells and sides <= 10, "
-                "capped by run time (thorough); random matrices up to 10x10: single-trunk shapes, the same with 1-3 "
+    out.rule = ("all 0/1 matrices of every shape up to 4x4 (quick) / every shape with at most 16 cells, the bound of the "
+                "completeness theorem (thorough; R*C <= 20 does not fit the 15 minute budget); random matrices up to 10x10: single-trunk shapes, the same with 1-3 "
                 "flipped cells, holes, disconnected pieces, staircases, iid noise at four densities, full/empty, ragged "
                 "rows; random simple orthogonal single-trunk polygons (dyadic coordinates, both orientations, any "
                 "start vertex, Point or ndarray vertices, open or closed lists); non-trivial = at least two true cells "
@@ -475,7 +475,7 @@ def run(ctx, out, replay=None):
         cases += list(exhaustive_cases(16, 4))
         nrand, npoly = 3000, 600
     else:
-        cases += list(exhaustive_cases(18, 10))
+        cases += list(exhaustive_cases(16, 16))
         nrand, npoly = 40000, 6000
     for _ in range(nrand):
         cases.append(gen_matrix_case(ctx.rng))
